@@ -416,6 +416,10 @@ pub struct TypeSpec {
     /// `#[repr(u128)]` only: every discriminant is written 2^127 higher than the model's value (the model keeps i128
     /// arithmetic; the shift is uniform because the first variant is explicit, so the order is the same)
     pub disc_shift: bool,
+    /// the definition is produced by a `macro_rules!` invocation: bit 0 = field types arrive as `$t:ty` fragments,
+    /// bit 1 = explicit discriminants as `$d:expr` fragments (only with the real compiler; the in-process engine
+    /// always sees the plain definition)
+    pub via_macro: u8,
 }
 
 /// inert attribute lines: `before` selects the ones marked `^`
@@ -714,6 +718,31 @@ impl TypeSpec {
 
     /// `derive`: what goes into `#[derive(..)]`; `educe_attrs`: whether `#[educe]` attributes are kept
     pub fn render_def_with(&self, derive: &str, educe_attrs: bool) -> String {
+        if self.via_macro != 0 && derive == "Educe" && educe_attrs {
+            let body = self.render_def_inner(derive, educe_attrs, self.via_macro);
+            let mut params: Vec<String> = Vec::new();
+            let mut args: Vec<String> = Vec::new();
+            if self.via_macro & 1 != 0 {
+                for (i, f) in self.all_fields().enumerate() {
+                    params.push(format!("$t{i}:ty"));
+                    args.push(f.ty.src.clone());
+                }
+            }
+            if self.via_macro & 2 != 0 {
+                for (i, v) in self.variants.iter().enumerate() {
+                    if let Some(d) = v.disc {
+                        params.push(format!("$d{i}:expr"));
+                        args.push(render_disc(d, v.disc_sp, self.repr.as_deref(), self.disc_shift));
+                    }
+                }
+            }
+            let name = self.name.trim_start_matches("r#");
+            return format!("macro_rules! mk_{name} {{\n    ({}) => {{\n{body}    }};\n}}\nmk_{name}!({});\n", params.join(", "), args.join(", "));
+        }
+        self.render_def_inner(derive, educe_attrs, 0)
+    }
+
+    fn render_def_inner(&self, derive: &str, educe_attrs: bool, mac: u8) -> String {
         let mut o = String::new();
         if !derive.is_empty() {
             writeln!(o, "#[derive({derive})]").unwrap();
@@ -745,14 +774,14 @@ impl TypeSpec {
                     Shape::Named => {
                         writeln!(o, "{wc} {{").unwrap();
                         for f in &v.fields {
-                            self.render_field(f, "    ", educe_attrs, &mut o);
+                            self.render_field(f, "    ", educe_attrs, mac, &mut o);
                         }
                         writeln!(o, "}}").unwrap();
                     },
                     Shape::Tuple => {
                         writeln!(o, "(").unwrap();
                         for f in &v.fields {
-                            self.render_field(f, "    ", educe_attrs, &mut o);
+                            self.render_field(f, "    ", educe_attrs, mac, &mut o);
                         }
                         writeln!(o, "){wc};").unwrap();
                     },
@@ -761,7 +790,7 @@ impl TypeSpec {
             Kind::Union => {
                 writeln!(o, "{wc} {{").unwrap();
                 for f in &self.variants[0].fields {
-                    self.render_field(f, "    ", educe_attrs, &mut o);
+                    self.render_field(f, "    ", educe_attrs, mac, &mut o);
                 }
                 writeln!(o, "}}").unwrap();
             },
@@ -782,20 +811,25 @@ impl TypeSpec {
                         Shape::Named => {
                             writeln!(o, "    {} {{", v.name).unwrap();
                             for f in &v.fields {
-                                self.render_field(f, "        ", educe_attrs, &mut o);
+                                self.render_field(f, "        ", educe_attrs, mac, &mut o);
                             }
                             write!(o, "    }}").unwrap();
                         },
                         Shape::Tuple => {
                             writeln!(o, "    {}(", v.name).unwrap();
                             for f in &v.fields {
-                                self.render_field(f, "        ", educe_attrs, &mut o);
+                                self.render_field(f, "        ", educe_attrs, mac, &mut o);
                             }
                             write!(o, "    )").unwrap();
                         },
                     }
                     if let Some(d) = v.disc {
-                        write!(o, " = {}", render_disc(d, v.disc_sp, self.repr.as_deref(), self.disc_shift)).unwrap();
+                        if mac & 2 != 0 {
+                            let vi = self.variants.iter().position(|w| std::ptr::eq(w, v)).unwrap_or(0);
+                            write!(o, " = $d{vi}").unwrap();
+                        } else {
+                            write!(o, " = {}", render_disc(d, v.disc_sp, self.repr.as_deref(), self.disc_shift)).unwrap();
+                        }
                     }
                     writeln!(o, ",").unwrap();
                 }
@@ -805,7 +839,15 @@ impl TypeSpec {
         o
     }
 
-    fn render_field(&self, f: &FieldSpec, indent: &str, educe_attrs: bool, o: &mut String) {
+    fn render_field(&self, f: &FieldSpec, indent: &str, educe_attrs: bool, mac: u8, o: &mut String) {
+        if mac & 1 != 0 {
+            // the field's type is a macro fragment
+            let idx = self.all_fields().position(|g| std::ptr::eq(g, f)).unwrap_or(0);
+            let mut g = f.clone();
+            g.ty.src = format!("$t{idx}");
+            g.render(indent, false, o);
+            return;
+        }
         if educe_attrs {
             f.render(indent, false, o);
         } else {
